@@ -17,7 +17,7 @@ pub fn mon() -> Mon {
         run,
         finish,
         replay,
-        rule: "Forged control requests for the 7 answerable command forms (Set Endpoint ID operations 0/1/3 with EID 0x01-0xFE, Get Endpoint ID, UUID, Version with every query byte, Message Types, Vendor selector < n) plus requests for unsupported commands and out-of-range operations/selectors, with requester address 0-127 (source EID = source address), responder address 0-127 (all 128x128 pairs per command form), every instance ID 0-31, on contexts with random valid configurations and random prior histories. Every generated response is checked field by field against the REQUEST bytes: byte count == len-4, reported length, command code 0x0F, destination address == request source address with the write bit clear, source address == own address with bit 0 set, header version 1, destination EID == request source EID, source EID == own address, SOM/EOM/seq 1/1/0, control type, request bit clear, same command code, same instance ID, a completion-code byte, and an independently computed PEC. The 7 answerable forms must be answered. Non-trivial = a response was judged; distinct = distinct (request, responder) hashes.",
+        rule: "Forged control requests for the 7 answerable command forms (Set Endpoint ID operations 0/1/3 with EID 0x01-0xFE, Get Endpoint ID, UUID, Version with every query byte, Message Types, Vendor selector < n) plus requests for unsupported commands and out-of-range operations/selectors, with requester address 0-127 (source EID = source address), responder address 0-127 (all 128x128 pairs per command form), every instance ID 0-31, on contexts with random valid configurations and random prior histories. Every generated response is checked field by field against the REQUEST bytes: byte count == len-4, reported length, command code 0x0F, destination address == request source address with the write bit clear, source address == own address with bit 0 set, header version 1, destination EID == request source EID, source EID == own address, SOM/EOM/seq 1/1/0, control type, request bit clear, same command code, same instance ID, a completion-code byte, and an independently computed PEC. Whether a request is answered at all is not judged here (C13-C15 do, for their commands); a command form for which no response was ever observed makes the run inconclusive. Non-trivial = a response was judged; distinct = distinct (request, responder) hashes.",
         assumptions: &[
             "requests whose SMBus source address and source endpoint ID name different requesters, and EIDs 0x00/0xFF in Set Endpoint ID, are outside the quantifier and not generated",
             "tag-owner/tag bits and the datagram/reserved bits of the response are not constrained by the statement",
@@ -69,12 +69,11 @@ pub fn check(cfgc: &CtxCfg, prelude_seed: u64, prelude_len: usize, req: &[u8], r
             Some(r) => r.clone(),
             None => {
                 rep.class(&format!("cmd-{:#04x}:no-response", cmd));
+                // whether a request is answered at all is not C12's claim (C13/C14/C15 own that for
+                // their commands); it is recorded, and a form that is never answered makes the
+                // run inconclusive (finish)
                 if must_answer {
-                    rep.violation(
-                        &format!("no-response:cmd-{:#04x}", cmd),
-                        || format!("answerable request {} got no response: {}", hex(req), obs.proc.as_ref().map(|p| p.brief()).unwrap_or_default()),
-                        case,
-                    );
+                    rep.class("answerable-request-not-answered");
                 }
                 return;
             }
